@@ -57,6 +57,11 @@ def _guard(f):
 
 
 def _A(case):
+    if "edges" in case:
+        A = np.zeros((case["n"], case["n"]), dtype=int)
+        for i, j in case["edges"]:
+            A[i, j] = A[j, i] = 1
+        return A
     n, mask = case["g"]
     return adj(n, False, mask).astype(int)
 
@@ -309,9 +314,9 @@ def op_xset(case, seed):
     elif mode[0] == "density":
         kw = {"cross_link_density": float(mode[1])}
         want = float(mode[1]) * n1n2
-        if want != int(want):
+        if abs(want - round(want)) > 1e-9:
             return None, None, 0, "density does not give a whole number", None
-        want = int(want)
+        want = int(round(want))
     else:
         kw, want = {}, sum(map(sum, X0))
     if want > n1n2:
@@ -356,8 +361,12 @@ def op_xset(case, seed):
                      "block changed", A1, A0)]
         got = sum(map(sum, ref.cross_block(A1, L1, L2)))
         if got != want:
-            return [(name + ":cross-link-count", "%d cross links instead of "
-                     "%d (%s)" % (got, want, mode), got, want)]
+            form = ""
+            if mode[0] == "density" and got == int(float(mode[1]) * n1n2):
+                form = "=int(density*pairs)"
+            return [(name + ":cross-link-count:mode=" + mode[0] + form,
+                     "%d cross links instead of %d (%s; %d pairs)" % (
+                         got, want, mode, n1n2), got, want)]
         return []
     return run_fn, judge, KERNEL_HORIZON, None, None
 
@@ -427,7 +436,7 @@ def op_model(case, seed):
             with ref.igraph_rng(cr, seed):
                 return _guard(f)
         old = nm.random
-        nm.random = ref.NetRandom(cr, seed)
+        nm.random = ref.NetRandom(cr, seed, int(case.get("idx_span", 256)))
         try:
             return _guard(f)
         finally:
@@ -443,7 +452,7 @@ def op_model(case, seed):
         d = ref.simple_defect(A1, n)
         if d:
             return [(name + ":not-simple", d, A1, "simple graph")]
-        links = len(ref.links(A1))
+        links = ref.n_links_of(A1)
         if nl != links:
             return [(name + ":n_links-attribute", "n_links=%d but the "
                      "adjacency has %d links" % (nl, links), nl, links)]
@@ -502,11 +511,24 @@ def fam_op(case):
         return {"viol": [], "evals": 0, "trivial": True,
                 "excluded": {"operation undefined: " + excl: 1}}
     stats = {}
+    snap = ref.unmodelled_snapshot()
+    horizon = int(case.get("horizon", horizon))
     if case.get("choices") is not None:
         bound = None
-        horizon = int(case.get("horizon", horizon))
         r = ref.drive(run_fn, judge, _sig, bound, horizon,
                       choices=case["choices"])
+    elif int(case.get("bmax", 2)) == 0:
+        bound = 0
+        r = ref.drive(run_fn, judge, _sig, 0, horizon)
+    elif case.get("strict_budget"):
+        # scale inputs: the default execution first; deviations only while
+        # the (exactly known) size of the next level fits the budget
+        bound = 0
+        r = ref.drive(run_fn, judge, _sig, 0, horizon)
+        while (bound < int(case["bmax"]) and r["cut"] == 0 and
+               r["states"] + r["next_level"] <= int(case["budget"])):
+            bound += 1
+            r = ref.drive(run_fn, judge, _sig, bound, horizon)
     elif ref.default_is_cut(run_fn, horizon):
         # the all-default execution does not end within the full horizon:
         # look for an end among the single deviations within the first
@@ -534,11 +556,12 @@ def fam_op(case):
                      "(reported as cut, not covered)"] = 1
     if adm is False and completed:
         stats["completed_although_model_sees_no_admissible_swap"] = 1
+    stats.update(ref.unmodelled_stats(snap))
     stats.update({"cut": r["cut"], "max_deviations": bound or 0,
                   "distinct_outputs": len(r["sigs"]),
                   "cases_at_bound_%s" % (bound,): 1})
     label = {k: v for k, v in case.items()
-             if k not in ("seed", "bmax", "budget")}
+             if k not in ("seed", "bmax", "budget", "edges")}
     return {"viol": [V(v["key"], "%s (horizon %d): %s" % (
                          label, horizon, v["msg"]), v["observed"],
                        v["expected"]) for v in r["viol"].values()],
@@ -549,9 +572,127 @@ def fam_op(case):
             "transitions": r["transitions"], "traces": r["traces"]}
 
 
-FAMILIES = {"op": fam_op, "rewire": fam_op, "geomodel": fam_op,
-            "cross_rewire": fam_op, "cross_set": fam_op,
+FAMILIES = {"op": fam_op, "scale": fam_op, "rewire": fam_op,
+            "geomodel": fam_op, "cross_rewire": fam_op, "cross_set": fam_op,
             "distance_kernel": fam_op, "models": fam_op}
+
+
+# ---------------------------------------------------------------------------
+# scale family: a fixed list of larger structured inputs, simplest first
+
+
+def _lattice_edges(cols, rows, extra=()):
+    e = []
+    for i in range(cols * rows):
+        if i % cols < cols - 1:
+            e.append([i, i + 1])
+        if i + cols < cols * rows:
+            e.append([i, i + cols])
+    return e + [list(x) for x in extra]
+
+
+def _two_groups(n1, n2):
+    """Interleaved labels: the groups are the first n1 / the remaining n2
+    nodes of the sequence 5*i mod N."""
+    n = n1 + n2
+    order = [(5 * i) % n for i in range(n)]
+    assert sorted(order) == list(range(n))
+    return sorted(order[:n1]), sorted(order[n1:])
+
+
+def _cross_network(n1, n2, L):
+    """A network on n1+n2 nodes: a ring (or single link) inside each group
+    and exactly L cross links, placed at the cells 5*c mod (n1*n2)."""
+    L1, L2 = _two_groups(n1, n2)
+    edges = []
+    for grp in (L1, L2):
+        if len(grp) == 2:
+            edges.append([grp[0], grp[1]])
+        elif len(grp) > 2:
+            edges += [[grp[i], grp[(i + 1) % len(grp)]]
+                      for i in range(len(grp))]
+    pairs = n1 * n2
+    for c in range(L):
+        cell = (5 * c) % pairs
+        edges.append([L1[cell // n2], L2[cell % n2]])
+    return L1, L2, edges
+
+
+def scale_cases(tier, seed):
+    thorough = tier == "thorough"
+    cases = []
+
+    lim = 6000 if thorough else 1500
+
+    def add(c, bmax, budget=None, **kw):
+        c = dict(c, seed=seed, bmax=bmax, budget=budget or lim,
+                 strict_budget=True)
+        c.update(kw)
+        cases.append(c)
+    # own BarabasiAlbert: exact link count m*(N-m) on every execution
+    for (n, m) in [(30, 2), (47, 3), (64, 5)] + (
+            [(81, 3), (100, 2), (100, 5)] if thorough else []):
+        add({"op": "model", "kind": "BarabasiAlbert",
+             "kw": {"n_nodes": n, "n_links_each": m}, "idx_span": 8}, 1,
+            2 * lim, horizon=20 * n * m)
+    # igraph models
+    add({"op": "model", "kind": "ErdosRenyi",
+         "kw": {"n_nodes": 40, "n_links": 100, "silence_level": 3}}, 1,
+        horizon=2000)
+    add({"op": "model", "kind": "Configuration",
+         "kw": {"degree": [3] * 20 + [2] * 9 + [4]}}, 1, horizon=2000)
+    add({"op": "model", "kind": "BarabasiAlbert_igraph",
+         "kw": {"n_nodes": 34, "n_links_each": 3}}, 1, horizon=2000)
+    add({"op": "model", "kind": "WattsStrogatz",
+         "kw": {"N": 30, "k": 2, "p": 0.3}}, 1, horizon=4000)
+    # randomly_rewire on 23 nodes: a 20-ring with chords, a 2-node
+    # component and an isolated last node
+    e23 = [[i, (i + 1) % 20] for i in range(20)] + [
+        [0, 7], [3, 15], [5, 12], [9, 17], [20, 21]]
+    for it in (1, 3, 10):
+        add({"op": "rewire", "n": 23, "edges": e23, "it": it}, 1,
+            horizon=400)
+    # geographical models, tight tolerance: lattice points numbered
+    # boustrophedon-wise, links along the rows (length 1) and a few
+    # diagonals (sqrt2): an admissible swap turns two row links of one cell
+    # into its two column links
+
+    def rows_graph(cols, rows, extra):
+        return [[r * cols + c, r * cols + c + 1] for r in range(rows)
+                for c in range(cols - 1)] + [list(x) for x in extra]
+    geo_inputs = [
+        (12, rows_graph(4, 3, [(0, 6), (5, 11)]), "snake4"),
+        (14, rows_graph(7, 2, [(0, 12), (3, 9)]), "snake7"),
+        (16, rows_graph(4, 4, [(0, 6), (9, 15), (2, 4)]), "snake4")]
+    for (n, edges, pts) in geo_inputs:
+        for model in ("I", "II", "III"):
+            for it in (1, 3, 10):
+                p = {"op": "geo", "n": n, "edges": edges, "model": model,
+                     "pts": pts, "eps": 0.02, "it": it}
+                add(dict(p, level="kernel"), 1, horizon=4000)
+                add(dict(p, level="api"), 1, lim // 2, horizon=4000)
+        add({"op": "geo", "n": n, "edges": edges, "model": "I", "pts": pts,
+             "eps": 0.02, "it": 3, "cls": "geo", "level": "api"}, 0,
+            horizon=4000)
+    # cross-link rewiring between groups of 7 and 14 nodes
+    L1, L2, edges = _cross_network(7, 14, 30)
+    for it in (1, 3):
+        add({"op": "xrewire", "n": 21, "edges": edges, "L1": L1, "L2": L2,
+             "it": it}, 1, horizon=2000)
+    # set cross links: every existing count L, null-model mode and the
+    # density L/pairs (must give exactly L links again)
+    for (n1, n2) in ((2, 11), (7, 7), (7, 14), (12, 12)):
+        pairs = n1 * n2
+        for L in range(1, pairs + 1):
+            L1, L2, edges = _cross_network(n1, n2, L)
+            for variant in ("dense", "sparse"):
+                for mode in (["keep"], ["density", L / pairs]):
+                    deep = thorough and L in (1, 2, pairs // 2, pairs - 1)
+                    add({"op": "xset", "n": n1 + n2, "edges": edges,
+                         "L1": L1, "L2": L2, "variant": variant,
+                         "mode": mode}, 1 if deep else 0,
+                        horizon=60 * pairs)
+    return cases
 
 
 # ---------------------------------------------------------------------------
@@ -712,6 +853,12 @@ def run(ctx):
         model("WattsStrogatz", {"N": n, "k": k, "p": p}, ig)
     ctx.explore("models", cases, chunk=2, desc="Network.Model: ErdosRenyi, "
                 "BarabasiAlbert(_igraph), Configuration, WattsStrogatz")
+    ctx.explore("scale", scale_cases(ctx.tier, seed), chunk=2,
+                desc="larger structured inputs: BarabasiAlbert 30-100 nodes, "
+                "set-cross-links for every existing count on groups with "
+                "22/49/98/144 pairs, geomodels on 12-16 nodes with a tight "
+                "tolerance, rewirings on 21-23 nodes, igraph models 30-40 "
+                "nodes")
     ctx.rule = (
         "inputs: iso(5) (34 graphs) and %s connected graphs on 6 nodes with "
         "<= 8 links (one per isomorphism class; randomly_rewire also on the "
@@ -729,7 +876,9 @@ def run(ctx):
         "while the execution count of the next level fits the per-case "
         "budget.  A "
         "case is non-trivial when the answers changed the result; distinct "
-        "= distinct sets of resulting adjacency matrices." % (
+        "= distinct sets of resulting adjacency matrices.  scale: the fixed "
+        "list of larger inputs in scale_cases(), seeded default answers and "
+        "(where stated there) every single deviation." % (
             "all 60" if thorough else "15 of the 60",
             "; both orders" if thorough else ""))
     ctx.notes.update({
@@ -743,7 +892,12 @@ def run(ctx):
                             "geomodel kernel direct": deep["budget"]},
         "horizon": {"kernel draws": KERNEL_HORIZON,
                     "igraph draws": IGRAPH_HORIZON},
-        "bound_per_case": "see stats.cases_at_bound_*"})
+        "bound_per_case": "see stats.cases_at_bound_*",
+        "scale_budget": "default execution always; single deviations when "
+                        "their exact number fits %d executions" % (
+                            6000 if thorough else 1500),
+        "unmodelled_rng_functions": ref.unmodelled_names(ctx.stats) or
+        "none (every draw of the operations went through a choice point)"})
     ctx.assumptions += [
         "igraph derives bounded integers from getrandbits(32) by "
         "multiply-shift, so 8 mid-bucket values reach every index of a range "
